@@ -1,13 +1,484 @@
 package main
 
+// Replay: turn a solver model of a refuted obligation into a Go test that is
+// injected into the real package with `go test -overlay`, and check that the
+// real code shows the predicted behaviour (a panic for safety obligations, the
+// predicted return values for postconditions).
+
+import (
+	"encoding/json"
+	"fmt"
+	"go/types"
+	"math/big"
+	"os"
+	"os/exec"
+	"path/filepath"
+	"strings"
+	"time"
+
+	"golang.org/x/tools/go/ssa"
+)
+
 type replayResult struct {
 	Confirmed bool   `json:"confirmed"`
 	Reason    string `json:"reason,omitempty"`
 	TestFile  string `json:"test_file,omitempty"`
 	Output    string `json:"output,omitempty"`
 	Cmd       string `json:"cmd,omitempty"`
+	Expected  string `json:"expected,omitempty"`
 }
 
-func (r *runReport) tryReplay(o *Obligation, base string) replayResult {
-	return replayResult{Confirmed: false, Reason: "replay generator not available for this obligation kind"}
+type replayCtx struct {
+	ex      *executor
+	fn      *ssa.Function
+	params  []Value
+	outs    []Value // return values at this obligation (post obligations)
+	outType *types.Tuple
+}
+
+const replayElems = 48
+
+type matReq struct {
+	terms []*Term
+	small []*Term // constraints preferring small inputs
+}
+
+func (m *matReq) add(t *Term) { m.terms = append(m.terms, t) }
+
+type notReplayable struct{ why string }
+
+// collect registers every term whose model value is needed to rebuild v of type t.
+func (rc *replayCtx) collect(m *matReq, v Value, t types.Type, depth int, nest int) {
+	if depth > 4 {
+		panic(notReplayable{"value nesting too deep"})
+	}
+	ex := rc.ex
+	switch u := t.Underlying().(type) {
+	case *types.Basic:
+		if u.Info()&types.IsString != 0 {
+			panic(notReplayable{"string-typed input"})
+		}
+		m.add(v.C[0])
+	case *types.Slice:
+		for _, c := range v.C {
+			m.add(c)
+		}
+		m.small = append(m.small, BVCmp("bvsle", v.C[3], BVI(replayElems, 64)))
+		n := replayElems
+		if nest > 0 {
+			n = 8
+		}
+		for i := 0; i < n; i++ {
+			a := &Addr{Kind: "elem", Base: v.C[0], Idx: BVBin("bvadd", v.C[1], BVI(int64(i), 64)), Root: u.Elem()}
+			ev := ex.load(ex.entry, a)
+			rc.collect(m, ev, u.Elem(), depth+1, nest+1)
+		}
+	case *types.Pointer:
+		m.add(v.C[0])
+		if _, ok := u.Elem().Underlying().(*types.Struct); !ok {
+			panic(notReplayable{"pointer to non-struct input"})
+		}
+		if v.A != nil && v.A.Kind != "obj" {
+			panic(notReplayable{"interior pointer input"})
+		}
+		pv := ex.load(ex.entry, &Addr{Kind: "obj", Base: v.C[0], Root: u.Elem()})
+		rc.collect(m, pv, u.Elem(), depth+1, nest)
+	case *types.Struct:
+		lo := 0
+		for i := 0; i < u.NumFields(); i++ {
+			n := len(shapeOf(u.Field(i).Type()))
+			ft := u.Field(i).Type()
+			fv := Value{T: ft, C: v.C[lo : lo+n]}
+			if rc.skippable(ft) {
+				lo += n
+				continue
+			}
+			rc.collect(m, fv, ft, depth+1, nest)
+			lo += n
+		}
+	default:
+		panic(notReplayable{"input of type " + shortTypeKey(t)})
+	}
+}
+
+// skippable: field types left at their zero value in replays (mutexes, funcs, interfaces...).
+func (rc *replayCtx) skippable(t types.Type) bool {
+	switch u := t.Underlying().(type) {
+	case *types.Interface, *types.Signature, *types.Chan, *types.Map:
+		return true
+	case *types.Struct:
+		s := typeKey(t)
+		if strings.HasPrefix(s, "sync.") || strings.HasPrefix(s, "time.") {
+			return true
+		}
+		_ = u
+	case *types.Basic:
+		return u.Info()&types.IsString != 0
+	case *types.Pointer:
+		if _, ok := u.Elem().Underlying().(*types.Struct); !ok {
+			return true
+		}
+	}
+	return false
+}
+
+type modelVals map[int]string // term id -> smt value
+
+func smtToBig(s string) (*big.Int, bool) {
+	s = strings.TrimSpace(s)
+	switch {
+	case strings.HasPrefix(s, "#x"):
+		v, ok := new(big.Int).SetString(s[2:], 16)
+		return v, ok
+	case strings.HasPrefix(s, "#b"):
+		v, ok := new(big.Int).SetString(s[2:], 2)
+		return v, ok
+	case strings.HasPrefix(s, "(- "):
+		v, ok := new(big.Int).SetString(strings.TrimSuffix(strings.TrimSpace(s[3:]), ")"), 10)
+		if ok {
+			v.Neg(v)
+		}
+		return v, ok
+	case strings.HasPrefix(s, "(_ bv"):
+		f := strings.Fields(s[5:])
+		v, ok := new(big.Int).SetString(f[0], 10)
+		return v, ok
+	}
+	v, ok := new(big.Int).SetString(s, 10)
+	return v, ok
+}
+
+func (mv modelVals) intOf(t *Term, signed bool) *big.Int {
+	if t.IsConst() {
+		if signed {
+			return t.SignedVal()
+		}
+		return t.val
+	}
+	s, ok := mv[t.id]
+	if !ok {
+		panic(notReplayable{"model has no value for " + t.Short()})
+	}
+	v, ok := smtToBig(s)
+	if !ok {
+		panic(notReplayable{"cannot parse model value " + s})
+	}
+	if signed && t.sort.K == SBV {
+		half := new(big.Int).Lsh(big.NewInt(1), uint(t.sort.W-1))
+		if v.Cmp(half) >= 0 {
+			v = new(big.Int).Sub(v, new(big.Int).Lsh(big.NewInt(1), uint(t.sort.W)))
+		}
+	}
+	return v
+}
+
+func (mv modelVals) boolOf(t *Term) bool {
+	if t.IsConst() {
+		return t == True
+	}
+	return strings.TrimSpace(mv[t.id]) == "true"
+}
+
+// goLit builds a Go expression of type t from the model. qual qualifies type names.
+func (rc *replayCtx) goLit(mv modelVals, v Value, t types.Type, depth int, qual types.Qualifier, nest int) string {
+	ex := rc.ex
+	ts := types.TypeString(t, qual)
+	switch u := t.Underlying().(type) {
+	case *types.Basic:
+		switch {
+		case u.Info()&types.IsBoolean != 0:
+			return fmt.Sprintf("%s(%t)", ts, mv.boolOf(v.C[0]))
+		case u.Info()&types.IsInteger != 0:
+			return fmt.Sprintf("%s(%s)", ts, mv.intOf(v.C[0], isSigned(t)).String())
+		}
+		panic(notReplayable{"input of type " + ts})
+	case *types.Slice:
+		arr := mv.intOf(v.C[0], false)
+		ln := mv.intOf(v.C[2], true).Int64()
+		cp := mv.intOf(v.C[3], true).Int64()
+		if arr.Sign() == 0 && ln == 0 {
+			return fmt.Sprintf("%s(nil)", ts)
+		}
+		if ln < 0 || cp < ln || cp > 1<<24 {
+			panic(notReplayable{fmt.Sprintf("slice of length %d capacity %d in model is too large to replay", ln, cp)})
+		}
+		n := int64(replayElems)
+		if nest > 0 {
+			n = 8
+		}
+		var sb strings.Builder
+		fmt.Fprintf(&sb, "func() %s { s := make(%s, %d, %d); ", ts, ts, ln, cp)
+		for i := int64(0); i < n && i < ln; i++ {
+			a := &Addr{Kind: "elem", Base: v.C[0], Idx: BVBin("bvadd", v.C[1], BVI(i, 64)), Root: u.Elem()}
+			ev := ex.load(ex.entry, a)
+			fmt.Fprintf(&sb, "s[%d] = %s; ", i, rc.goLit(mv, ev, u.Elem(), depth+1, qual, nest+1))
+		}
+		sb.WriteString("return s }()")
+		return sb.String()
+	case *types.Pointer:
+		p := mv.intOf(v.C[0], false)
+		if p.Sign() == 0 {
+			return fmt.Sprintf("(%s)(nil)", ts)
+		}
+		pv := ex.load(ex.entry, &Addr{Kind: "obj", Base: v.C[0], Root: u.Elem()})
+		return "&" + rc.goLit(mv, pv, u.Elem(), depth+1, qual, nest)
+	case *types.Struct:
+		var fs []string
+		lo := 0
+		for i := 0; i < u.NumFields(); i++ {
+			n := len(shapeOf(u.Field(i).Type()))
+			ft := u.Field(i).Type()
+			if !rc.skippable(ft) {
+				fv := Value{T: ft, C: v.C[lo : lo+n]}
+				fs = append(fs, fmt.Sprintf("%s: %s", u.Field(i).Name(), rc.goLit(mv, fv, ft, depth+1, qual, nest)))
+			}
+			lo += n
+		}
+		return fmt.Sprintf("%s{%s}", ts, strings.Join(fs, ", "))
+	}
+	panic(notReplayable{"input of type " + ts})
+}
+
+// describeResult renders predicted results for comparison with the real run.
+func (rc *replayCtx) predicted(mv modelVals) string {
+	var parts []string
+	for i, v := range rc.outs {
+		t := rc.outType.At(i).Type()
+		parts = append(parts, predictedOne(mv, v, t))
+	}
+	return strings.Join(parts, " | ")
+}
+
+func predictedOne(mv modelVals, v Value, t types.Type) string {
+	switch u := t.Underlying().(type) {
+	case *types.Basic:
+		switch {
+		case u.Info()&types.IsBoolean != 0:
+			return fmt.Sprintf("%t", mv.boolOf(v.C[0]))
+		case u.Info()&types.IsInteger != 0:
+			return mv.intOf(v.C[0], isSigned(t)).String()
+		}
+		return "?"
+	case *types.Interface, *types.Pointer, *types.Map:
+		if mv.intOf(v.C[0], false).Sign() == 0 {
+			return "nil"
+		}
+		return "non-nil"
+	case *types.Slice:
+		return fmt.Sprintf("len=%s", mv.intOf(v.C[2], true).String())
+	}
+	return "?"
+}
+
+func resultPrinter(i int, t types.Type) string {
+	r := fmt.Sprintf("r%d", i)
+	switch u := t.Underlying().(type) {
+	case *types.Basic:
+		switch {
+		case u.Info()&types.IsBoolean != 0:
+			return fmt.Sprintf(`fmt.Sprintf("%%t", %s)`, r)
+		case u.Info()&types.IsInteger != 0:
+			return fmt.Sprintf(`fmt.Sprintf("%%d", %s)`, r)
+		}
+		return `"?"`
+	case *types.Interface, *types.Pointer, *types.Map:
+		return fmt.Sprintf(`map[bool]string{true: "nil", false: "non-nil"}[%s == nil]`, r)
+	case *types.Slice:
+		return fmt.Sprintf(`fmt.Sprintf("len=%%d", len(%s))`, r)
+	}
+	return `"?"`
+}
+
+func (r *runReport) tryReplay(o *Obligation, base string) (res replayResult) {
+	rc := o.RP
+	if rc == nil || rc.fn == nil {
+		return replayResult{Reason: "no replay context for this obligation (lemma or inlined context)"}
+	}
+	defer func() {
+		if x := recover(); x != nil {
+			if nr, ok := x.(notReplayable); ok {
+				res = replayResult{Reason: "model not replayable: " + nr.why}
+				return
+			}
+			if u, ok := x.(unsupported); ok {
+				res = replayResult{Reason: "model not replayable: " + u.msg}
+				return
+			}
+			panic(x)
+		}
+	}()
+	fn := rc.fn
+	if fn.Pkg == nil || fn.Parent() != nil {
+		return replayResult{Reason: "function is a closure or has no package"}
+	}
+	sig := fn.Signature
+	if sig.Variadic() {
+		return replayResult{Reason: "variadic function"}
+	}
+	// 1. terms to ask for
+	m := &matReq{}
+	var ptypes []types.Type
+	if sig.Recv() != nil {
+		ptypes = append(ptypes, sig.Recv().Type())
+	}
+	for i := 0; i < sig.Params().Len(); i++ {
+		ptypes = append(ptypes, sig.Params().At(i).Type())
+	}
+	if len(ptypes) != len(rc.params) {
+		return replayResult{Reason: "parameter count mismatch"}
+	}
+	for i, pv := range rc.params {
+		rc.collect(m, pv, ptypes[i], 0, 0)
+	}
+	safety := o.Kind != "post" && o.Kind != "frame"
+	if !safety {
+		for _, ov := range rc.outs {
+			for _, c := range ov.C {
+				m.add(c)
+			}
+		}
+	}
+	// 2. solve again asking for these values
+	q := o.query(TS.axioms)
+	q.GetValues = nil
+	seen := map[int]bool{}
+	for _, t := range m.terms {
+		if !t.IsConst() && !seen[t.id] && !t.bound {
+			seen[t.id] = true
+			q.GetValues = append(q.GetValues, t)
+		}
+	}
+	smtFile := base + ".replay.smt2"
+	defer os.Remove(smtFile)
+	baseAsserts := q.Asserts
+	q.Asserts = append(append([]*Term{}, baseAsserts...), m.small...)
+	txt, gv := q.Render(true)
+	os.WriteFile(smtFile, []byte(txt), 0o644)
+	out := solveQuery(smtFile, 20, 60, false)
+	if out.status != "sat" {
+		q.Asserts = baseAsserts
+		txt, gv = q.Render(true)
+		os.WriteFile(smtFile, []byte(txt), 0o644)
+		out = solveQuery(smtFile, 20, 60, false)
+	}
+	if out.status != "sat" {
+		return replayResult{Reason: "model query returned " + out.status}
+	}
+	pairs := parseValuePairs(out.raw)
+	mv := modelVals{}
+	for e, t := range gv {
+		if v, ok := pairs[e]; ok {
+			mv[t.id] = v
+		}
+	}
+	// 3. Go test
+	pkg := fn.Pkg.Pkg
+	qual := func(p *types.Package) string {
+		if p == pkg {
+			return ""
+		}
+		return p.Name()
+	}
+	imports := map[string]string{}
+	qualImp := func(p *types.Package) string {
+		if p == pkg {
+			return ""
+		}
+		imports[p.Path()] = p.Name()
+		return p.Name()
+	}
+	_ = qual
+	var sb strings.Builder
+	var argNames []string
+	var decls strings.Builder
+	for i, pv := range rc.params {
+		name := fmt.Sprintf("a%d", i)
+		argNames = append(argNames, name)
+		fmt.Fprintf(&decls, "\t%s := %s\n", name, rc.goLit(mv, pv, ptypes[i], 0, qualImp, 0))
+	}
+	var call string
+	if sig.Recv() != nil {
+		call = fmt.Sprintf("%s.%s(%s)", argNames[0], fn.Name(), strings.Join(argNames[1:], ", "))
+	} else {
+		call = fmt.Sprintf("%s(%s)", fn.Name(), strings.Join(argNames, ", "))
+	}
+	nres := sig.Results().Len()
+	var lhs []string
+	var prints []string
+	for i := 0; i < nres; i++ {
+		lhs = append(lhs, fmt.Sprintf("r%d", i))
+		prints = append(prints, resultPrinter(i, sig.Results().At(i).Type()))
+	}
+	fmt.Fprintf(&sb, "package %s\n\nimport (\n\t\"fmt\"\n\t\"testing\"\n", pkg.Name())
+	for p, n := range imports {
+		fmt.Fprintf(&sb, "\t%s %q\n", n, p)
+	}
+	sb.WriteString(")\n\n")
+	fmt.Fprintf(&sb, "// generated by govc: replay of the solver model for obligation\n//   %s\n", o.Name)
+	sb.WriteString("func TestGovcReplay(t *testing.T) {\n")
+	sb.WriteString("\tdefer func() {\n\t\tif r := recover(); r != nil {\n\t\t\tfmt.Printf(\"GOVC-PANIC: %v\\n\", r)\n\t\t}\n\t}()\n")
+	sb.WriteString(decls.String())
+	if nres > 0 {
+		fmt.Fprintf(&sb, "\t%s := %s\n", strings.Join(lhs, ", "), call)
+		fmt.Fprintf(&sb, "\tfmt.Printf(\"GOVC-RESULT: %%s\\n\", strings.Join([]string{%s}, \" | \"))\n", strings.Join(prints, ", "))
+	} else {
+		fmt.Fprintf(&sb, "\t%s\n\tfmt.Printf(\"GOVC-RESULT: \\n\")\n", call)
+	}
+	sb.WriteString("}\n")
+	src := sb.String()
+	if nres > 0 {
+		src = strings.Replace(src, "\t\"testing\"\n", "\t\"strings\"\n\t\"testing\"\n", 1)
+	}
+	testFile := base + "_test.go"
+	os.WriteFile(testFile, []byte(src), 0o644)
+	// 4. run with overlay
+	pkgDir := filepath.Dir(r.eng.fset.Position(fn.Pos()).Filename)
+	ov := map[string]map[string]string{"Replace": {filepath.Join(pkgDir, "zz_govc_replay_test.go"): testFile}}
+	ovb, _ := json.Marshal(ov)
+	ovFile := base + ".overlay.json"
+	os.WriteFile(ovFile, ovb, 0o644)
+	args := []string{"test", "-overlay", ovFile, "-vet=off", "-count=1", "-v", "-timeout", "60s", "-run", "^TestGovcReplay$", "."}
+	cmd := exec.Command("go", args...)
+	cmd.Dir = pkgDir
+	cmd.Env = append(os.Environ(), "GOFLAGS=-mod=mod", "GOPROXY=off", "GOSUMDB=off", "GOTOOLCHAIN=local")
+	done := make(chan struct{})
+	var outb []byte
+	go func() { outb, _ = cmd.CombinedOutput(); close(done) }()
+	select {
+	case <-done:
+	case <-time.After(180 * time.Second):
+		if cmd.Process != nil {
+			cmd.Process.Kill()
+		}
+		<-done
+	}
+	output := string(outb)
+	res = replayResult{TestFile: testFile, Output: truncate(output, 3000), Cmd: "cd " + pkgDir + " && go " + strings.Join(args, " ")}
+	if safety {
+		res.Expected = "panic"
+		if strings.Contains(output, "GOVC-PANIC:") || strings.Contains(output, "panic:") {
+			res.Confirmed = true
+		} else {
+			res.Reason = "the real code did not panic on the model input"
+		}
+		return res
+	}
+	exp := rc.predicted(mv)
+	res.Expected = "GOVC-RESULT: " + exp
+	if strings.Contains(exp, "?") {
+		res.Reason = "predicted results not comparable"
+		return res
+	}
+	for _, l := range strings.Split(output, "\n") {
+		if strings.HasPrefix(l, "GOVC-RESULT: ") {
+			if strings.TrimSpace(strings.TrimPrefix(l, "GOVC-RESULT: ")) == exp {
+				res.Confirmed = true
+			} else {
+				res.Reason = "real results differ from the model's prediction"
+			}
+			return res
+		}
+	}
+	res.Reason = "no result line in test output"
+	return res
 }
